@@ -32,8 +32,9 @@ func runC18(c *Ctx) {
 			cal := callee(info, call)
 			return cal != nil && cal.Name() == "Deserialize"
 		}, true)
+		oks := commaOkLocals(info, fn.Decl.Body)
 		parseBad := f.EdgesWhere(func(cond ast.Expr) (bool, bool) {
-			if id, ok := cond.(*ast.Ident); ok && id.Name == "ok" {
+			if id, ok := cond.(*ast.Ident); ok && oks[info.ObjectOf(id)] {
 				return true, false
 			}
 			return false, false
@@ -174,8 +175,11 @@ func runC18(c *Ctx) {
 				for _, el := range cl.Elts {
 					if kv, ok := el.(*ast.KeyValueExpr); ok {
 						if id, ok := kv.Key.(*ast.Ident); ok && id.Name == "messages" {
-							if o := objOf(eq.Info(), kv.Value); o != nil && o.Name() == "messages" {
-								okHand = true
+							ps := eq.Obj.Type().(*types.Signature).Params()
+							for i := 0; i < ps.Len(); i++ {
+								if _, isSlice := ps.At(i).Type().Underlying().(*types.Slice); isSlice && objOf(eq.Info(), kv.Value) == types.Object(ps.At(i)) {
+									okHand = true
+								}
 							}
 						}
 					}
